@@ -20,6 +20,7 @@ type PackagesFacade struct {
 
 	fileSet       *token.FileSet
 	files         map[string]*ast.File         // filename → *ast.File
+	sourceFiles   map[string]struct{}          // filenames matched by the configured globs
 	fileToPackage map[string]*packages.Package // filename → owning *packages.Package
 
 	packagesCache  map[string]*packages.Package // pkgPath → *packages.Package
@@ -33,6 +34,7 @@ func NewPackagesFacade(config PackageFacadeConfig) (PackagesFacade, error) {
 		fileSet: token.NewFileSet(),
 
 		files:         make(map[string]*ast.File),
+		sourceFiles:   make(map[string]struct{}),
 		fileToPackage: make(map[string]*packages.Package),
 
 		packagesCache:  make(map[string]*packages.Package),
@@ -48,10 +50,13 @@ func (facade *PackagesFacade) FSet() *token.FileSet {
 }
 
 func (facade *PackagesFacade) GetAllSourceFiles() []*ast.File {
+	// Only files matched by the globs are source files. Files of packages loaded on demand (to resolve
+	// a type used by a controller) are known to the facade but are not scanned for controllers.
+	//
 	// Files are handed out ordered by their path; the order decides the order of a controller's routes
 	// so it must not follow map iteration order
-	paths := make([]string, 0, len(facade.files))
-	for path := range facade.files {
+	paths := make([]string, 0, len(facade.sourceFiles))
+	for path := range facade.sourceFiles {
 		paths = append(paths, path)
 	}
 	sort.Strings(paths)
@@ -118,7 +123,16 @@ func (facade *PackagesFacade) initWithGlobs() error {
 	return nil
 }
 
-func (facade *PackagesFacade) registerParsedFile(absSourceFilePath string, file *ast.File, pkg *packages.Package) {
+func (facade *PackagesFacade) registerParsedFile(
+	absSourceFilePath string,
+	file *ast.File,
+	pkg *packages.Package,
+	isGlobMatched bool,
+) {
+	if isGlobMatched {
+		facade.sourceFiles[absSourceFilePath] = struct{}{}
+	}
+
 	if facade.files[absSourceFilePath] != nil {
 		// Idempotency guard- packageToFiles and fileSet need that
 		return
@@ -253,7 +267,7 @@ func (facade *PackagesFacade) cachePackage(pkg *packages.Package, relevantFiles 
 		}
 
 		// Load and register the file and package
-		facade.registerParsedFile(absPath, file, pkg)
+		facade.registerParsedFile(absPath, file, pkg, relevantFiles != nil)
 	}
 }
 
